@@ -291,7 +291,13 @@ def do_replay(mod, prop_id, path, tier, seed):
         sigs = r[1] if r[0] == "ok" else []
         print("REPLAY sigs:", sigs, r if r[0] != "ok" else "")
         return 1 if sigs else 0
-    mod.replay(rec["case"], ctx)
+    try:
+        mod.replay(rec["case"], ctx)
+    except Exception as e:  # noqa: BLE001
+        from mc.ctx import unguarded_violation
+
+        if not unguarded_violation(ctx, e, rec["case"]):
+            raise
     sigs = sorted({v["sig"] for v in ctx.violations})
     for v in ctx.violations:
         print("REPLAY violation sig=%s what=%s" % (v["sig"], v["what"]))
